@@ -126,7 +126,10 @@ def gen_plan(seed, prop, faults):
     structs = []
     for k in range(cfg['nstruct']):
         nmax = 4
-        A = gen.gen_abstract_kripke(rng, nmax, atoms)
+        shape = None
+        if cfg['fair'] and rng.random() < 0.5:
+            shape = 'fairfriendly'
+        A = gen.gen_abstract_kripke(rng, nmax, atoms, None, shape)
         n = A['n']
         if cfg['hetero_states']:
             fam = rng.choice(gen.FAMILIES)
@@ -155,9 +158,14 @@ def gen_plan(seed, prop, faults):
         if cfg['fair']:
             for _ in range(rng.randint(0, 2)):
                 F.append(gen.gen_fairness(rng, n))
-            if F and rng.random() < 0.6:
+            if not F and shape == 'fairfriendly':
+                F.append(gen.gen_fairness(rng, n))
+            if F and rng.random() < 0.7:
                 # same union of states, different partition
                 union = sorted(set(x for P in F[0] for x in P))
+                if len(union) < 2 and n >= 2:
+                    union = sorted(rng.sample(range(n), 2))
+                    F[0] = [union]
                 if len(union) >= 2:
                     if len(F[0]) == 1:
                         F.append([[x] for x in union])
@@ -186,8 +194,8 @@ def gen_plan(seed, prop, faults):
         if f['text_ok'] and rng.random() < 0.35:
             q['form'] = 'text'
             q['parser'] = rng.choice(['none', 'none', 'shared'])
-        if structs[ki]['F'] and rng.random() < 0.5 and \
-                (prop == 'C07'):
+        if structs[ki]['F'] and rng.random() < 0.6 and \
+                (prop == 'C07') and q['mc'] != 'LTL':
             q['F'] = rng.randrange(len(structs[ki]['F']))
         return q
 
